@@ -267,6 +267,13 @@ func (im *impl) do(op, arg string) (string, error) {
 			s.Serve(ln)
 		})
 		return "", nil
+	case "dialopts":
+		// dial id with the shared custom options
+		id64, _ := strconv.ParseUint(arg, 10, 32)
+		if im.grpcb == nil {
+			return "", errors.New("dialopts: gRPC only")
+		}
+		return DialPingWithOpts(im.grpcb, uint32(id64))
 	case "dialbig":
 		// dial id and fetch a large response through the brokered connection
 		ids, ns, _ := strings.Cut(arg, ":")
@@ -712,4 +719,22 @@ func AbortStream(b *plugin.MuxBroker, id uint32, n int) error {
 		}
 	}
 	return st.Close()
+}
+
+// SharedDialOpts is a slice of custom dial options with spare capacity, the
+// way a caller builds it by successive appends, used for EVERY brokered dial.
+var SharedDialOpts = func() []grpc.DialOption {
+	o := make([]grpc.DialOption, 0, 8)
+	o = append(o, grpc.WithUserAgent("sim-host"), grpc.WithDefaultCallOptions(grpc.MaxCallRecvMsgSize(1<<26)), grpc.WithDisableServiceConfig())
+	return o
+}()
+
+// DialPingWithOpts dials id through the gRPC broker with the shared options.
+func DialPingWithOpts(b *plugin.GRPCBroker, id uint32) (string, error) {
+	conn, err := b.DialWithOptions(id, SharedDialOpts...)
+	if err != nil {
+		return "", err
+	}
+	defer conn.Close()
+	return PingConn(conn, 20*time.Second)
 }
